@@ -262,7 +262,8 @@ class Gen:
 # rendering to source text (not brush's layout: `;`-joined where possible, `function` keyword, `|` spaced)
 
 class Src:
-    def __init__(self, style):
+    def __init__(self, style, hdr=None):
+        self.hdr = style % 2 if hdr is None else hdr      # 0 `name()`, 1 `function name`, 2 `function name()`
         self.out = []
         self.pending = []
         self.style = style
@@ -333,10 +334,7 @@ def r_cmd(s, c):
             s.emit(" ")
             r_redir(s, r)
     else:
-        if s.style % 2:
-            s.emit("function " + c[1] + " ")
-        else:
-            s.emit(c[1] + "() ")
+        s.emit([c[1] + "() ", "function " + c[1] + " ", "function " + c[1] + "() "][s.hdr])
         r_compound(s, c[2])
         for r in c[3]:
             s.emit(" ")
@@ -435,9 +433,9 @@ def r_compound(s, c):
         s.emit("[[ " + " ".join(c[1]) + " ]]")
 
 
-def source(fdef, style=0):
-    s = Src(style)
-    s.emit("f() " if style % 2 == 0 else "function f ")
+def source(fdef, style=0, hdr=None):
+    s = Src(style, hdr)
+    s.emit(["f() ", "function f ", "function f() "][s.hdr])
     r_compound(s, fdef[2])
     for r in fdef[3]:
         s.emit(" ")
@@ -593,6 +591,8 @@ def features(fdef):
             lst(r[3][2], ind)
 
     def word(w, ind):
+        if "\n" in w:
+            fs.add("multiline_word")
         if "\n" in w and ind > 0:
             fs.add("multiline_word_indented")
         if any(ch in w for ch in "\"'`\\(){};<>|&# \t\n"):
